@@ -1,5 +1,6 @@
 import Gql.Proofs.LexerBasic
 import Gql.Proofs.LexerGrammar
+import Gql.Proofs.LexerBlock
 import Gql.Proofs.SpecLex
 import Gql.Proofs.C09Misc
 /-!
@@ -14,12 +15,10 @@ items only, every token is the longest match at its position, then `<EOF>`").
 
 `sig` maps a model token to (kind, start, stop, value); `kv` keeps kinds and values only.
 
-Status: clauses 1 (lexer = grammar) and 3 (invariance) are proved for the classes Ignored
-(white space, line terminators, comma, BOM, comments), Punctuator, Name, IntValue and FloatValue;
-the two string classes enter as per-text hypotheses `StringClassOK body` / `BlockClassOK body`
-(each says: where the lexer calls `read_string` / `read_block_string`, the result is the
-grammar's match); both hold trivially for a text without a quotation mark.  The full statements
-are kept as `def …_full : Prop`.
+Status: clause 1 (lexer = grammar) and the gap clause are proved for every text and every token
+class (Ignored, Punctuator, Name, IntValue, FloatValue, StringValue with the three escape forms
+and the surrogate-pair rule, BlockString with `BlockStringValue()`).  Statements that are only
+partly proved keep their full form as `def …_full : Prop`.
 -/
 namespace Gql.Props.C09
 open Gql Gql.Text Gql.Spec.Lex
@@ -49,23 +48,15 @@ example : ¬ (readNextToken [34, 92] {} 0).isCrash := lex_no_crash _ _ _
 theorem specTokenize_iff_SpecTokens (body : List Nat) (ts : List SpecToken) :
     specTokenize body = some ts ↔ SpecTokens body ts := specTokenize_iff body ts
 
-/-- FULL STATEMENT of clause 1 (kinds, spans, values; acceptance and rejection). -/
-def lexer_eq_grammar_full : Prop :=
-  ∀ body : List Nat,
-    (∀ ts, lexAll body = .ok ts ↔ specTokenize body = some (sig ts) ∧ ¬ (lexAll body).isErr) ∧
-    ((∃ e, lexAll body = .err e) ↔ specTokenize body = none)
-
-/-- Clause 1, proved for the classes Ignored, Punctuator, Name, IntValue, FloatValue: on every text
-on which the two string classes agree (`StringClassOK`, `BlockClassOK`), the lexer returns tokens
-`ts` exactly when the grammar's token sequence is `sig ts` (same kinds, spans and values), and it
-raises a syntax error exactly when the text has no token sequence.  Missing for the full
-statement: `StringClassOK body` and `BlockClassOK body` for texts containing `"`. -/
-theorem lexer_eq_grammar_partial (body : List Nat) (hstr : StringClassOK body) (hblk : BlockClassOK body) :
+/-- Clause 1, for every text: the lexer returns tokens `ts` exactly when the grammar's token
+sequence is `sig ts` (same kinds, spans and values, for every token class including both string
+forms), and it raises a syntax error exactly when the text has no token sequence. -/
+theorem lexer_eq_grammar (body : List Nat) :
     (∀ ts, lexAll body = .ok ts → specTokenize body = some (sig ts)) ∧
     (∀ e, lexAll body = .err e → specTokenize body = none) ∧
     (∀ ss, specTokenize body = some ss → ∃ ts, lexAll body = .ok ts ∧ sig ts = ss) ∧
     (specTokenize body = none → ∃ e, lexAll body = .err e) := by
-  have h := lexAll_agree body hstr hblk
+  have h := lexAll_agree_all body
   refine ⟨?_, ?_, ?_, ?_⟩
   · intro ts hts; rw [hts] at h; exact h
   · intro e he; rw [he] at h; exact h
@@ -80,13 +71,23 @@ theorem lexer_eq_grammar_partial (body : List Nat) (hstr : StringClassOK body) (
     | err e => exact ⟨e, rfl⟩
     | crash c => rw [hl] at h; exact h.elim
 
-/-- Clause 1 without hypotheses for every text that contains no quotation mark. -/
-theorem lexer_eq_grammar_noquote_partial (body : List Nat) (h : 34 ∉ body) :
-    (∀ ts, lexAll body = .ok ts → specTokenize body = some (sig ts)) ∧
-    (∀ e, lexAll body = .err e → specTokenize body = none) ∧
-    (∀ ss, specTokenize body = some ss → ∃ ts, lexAll body = .ok ts ∧ sig ts = ss) ∧
-    (specTokenize body = none → ∃ e, lexAll body = .err e) :=
-  lexer_eq_grammar_partial body (stringClassOK_of_noQuote body h) (blockClassOK_of_noQuote body h)
+/-- Clause 1 in relational form: the tokens of a text that lexes form a derivation of the
+grammar's token-sequence relation, and every derivation is what the lexer returns. -/
+theorem lexer_eq_SpecTokens (body : List Nat) :
+    (∀ ts, lexAll body = .ok ts → SpecTokens body (sig ts)) ∧
+    (∀ ss, SpecTokens body ss → ∃ ts, lexAll body = .ok ts ∧ sig ts = ss) :=
+  ⟨fun ts h => (specTokenize_iff body _).mp ((lexer_eq_grammar body).1 ts h),
+   fun ss h => (lexer_eq_grammar body).2.2.1 ss ((specTokenize_iff body ss).mpr h)⟩
+
+-- a string with all three escape forms and a surrogate pair, and a block string with indentation
+example : specTokenize [34, 92, 110, 92, 117, 48, 48, 52, 49, 92, 117, 123, 49, 70, 54, 48, 48, 125,
+      92, 117, 68, 56, 51, 68, 92, 117, 68, 69, 48, 48, 34] =
+    some [⟨.string, 0, 31, some [10, 65, 0x1F600, 0x1F600]⟩, ⟨.eof, 31, 31, none⟩] := by decide
+example : specTokenize [34, 34, 34, 10, 32, 32, 97, 10, 32, 32, 32, 98, 92, 34, 34, 34, 10, 32, 34, 34, 34] =
+    some [⟨.blockString, 0, 21, some [97, 10, 32, 98, 34, 34, 34]⟩, ⟨.eof, 21, 21, none⟩] := by decide
+-- a lone surrogate escape, an unpaired lead surrogate, a 9-digit braced escape are not strings
+example : specTokenize [34, 92, 117, 68, 56, 48, 48, 34] = none ∧
+    specTokenize [34, 92, 117, 123, 48, 48, 48, 48, 48, 48, 48, 52, 49, 125, 34] = none := by decide
 
 -- `{a -1.5e3 ...,}` : the hypotheses hold and the grammar gives five tokens and EOF
 example : 34 ∉ [123, 97, 32, 45, 49, 46, 53, 101, 51, 32, 46, 46, 46, 44, 125] ∧
@@ -107,16 +108,11 @@ theorem spans (body : List Nat) (ts : List Token) (h : lexAll body = .ok ts) :
   obtain ⟨rest, hts, hch⟩ := lexAllAux_spans body _ {} 0 [] ts (by omega) h
   simpa [hts] using hch
 
-/-- FULL STATEMENT of the gap clause: the token sequence of every text that lexes satisfies the
-grammar's relation (`SpecTokens`: between consecutive tokens there are Ignored items only). -/
-def gaps_ignored_full : Prop := ∀ body ts, lexAll body = .ok ts → SpecTokens body (sig ts)
-
-/-- Gap clause, proved on the classes of `lexer_eq_grammar_partial`: the returned tokens with the
-text between them form a derivation `Ignored* (Token Ignored*)* <EOF>` of the grammar.
-Missing: the two string-class hypotheses. -/
-theorem gaps_ignored_partial (body : List Nat) (hstr : StringClassOK body) (hblk : BlockClassOK body)
-    (ts : List Token) (h : lexAll body = .ok ts) : SpecTokens body (sig ts) :=
-  (specTokenize_iff body (sig ts)).mp ((lexer_eq_grammar_partial body hstr hblk).1 ts h)
+/-- The gap clause, for every text that lexes: the returned tokens with the text between them form
+a derivation `Ignored* (Token Ignored*)* <EOF>` of the grammar (`SpecTokens`), i.e. every gap
+between consecutive tokens, before the first and after the last consists of Ignored items only. -/
+theorem gaps_ignored (body : List Nat) (ts : List Token) (h : lexAll body = .ok ts) :
+    SpecTokens body (sig ts) := (lexer_eq_SpecTokens body).1 ts h
 
 example : SpanChain 3 0 [⟨.braceL, 0, 1, 1, 1, none⟩, ⟨.braceR, 2, 3, 1, 3, none⟩, ⟨.eof, 3, 3, 1, 4, none⟩] := by
   simp [SpanChain]
@@ -137,20 +133,16 @@ def ignored_invariance_full : Prop :=
     ∃ ts', lexAll (pre ++ g ++ post) = .ok ts' ∧ kv (sig ts') = kv (sig ts)
 
 /-- Clause 3 on the model, proved for insertion in front of a text (the boundary before the first
-token; by `lexer_eq_grammar_partial` and suffix-locality this is the step used at every later
-boundary): if `g` is a run of Ignored items in front of `post`, the lexer accepts `g ++ post`
+token): if `g` is a run of Ignored items in front of `post`, the lexer accepts `g ++ post`
 exactly when it accepts `post`, with the same kinds and values.  Missing for the full statement:
-stability of the tokens *before* the insertion point (per-class lookahead argument) and the two
-string-class hypotheses. -/
-theorem ignored_invariance_partial (g post : List Nat) (h : IgnoredRun (g ++ post) g.length)
-    (hs1 : StringClassOK (g ++ post)) (hb1 : BlockClassOK (g ++ post))
-    (hs2 : StringClassOK post) (hb2 : BlockClassOK post) :
+stability of the tokens *before* the insertion point. -/
+theorem ignored_invariance_partial (g post : List Nat) (h : IgnoredRun (g ++ post) g.length) :
     (∀ ts, lexAll post = .ok ts → ∃ ts', lexAll (g ++ post) = .ok ts' ∧ kv (sig ts') = kv (sig ts)) ∧
     (∀ e, lexAll post = .err e → ∃ e', lexAll (g ++ post) = .err e') := by
   have hk := ignored_invariance_spec (g ++ post) g.length h
   rw [List.drop_left] at hk
-  obtain ⟨a1, a2, a3, a4⟩ := lexer_eq_grammar_partial (g ++ post) hs1 hb1
-  obtain ⟨b1, b2, b3, b4⟩ := lexer_eq_grammar_partial post hs2 hb2
+  obtain ⟨a1, a2, a3, a4⟩ := lexer_eq_grammar (g ++ post)
+  obtain ⟨b1, b2, b3, b4⟩ := lexer_eq_grammar post
   constructor
   · intro ts hts
     have := b1 ts hts
@@ -199,7 +191,7 @@ def strip_idem_full : Prop :=
   ∀ s out, stripIgnoredCharacters s = .ok out → stripIgnoredCharacters out = .ok out
 
 example : (∃ e, lexAll [49, 97] = .err e) := by
-  have := (lexer_eq_grammar_noquote_partial [49, 97] (by decide)).2.2.2 (by decide)
+  have := (lexer_eq_grammar [49, 97]).2.2.2 (by decide)
   exact this
 
 /-! ## Clause 5 — the token limit -/
